@@ -12,18 +12,19 @@ Import ListNotations.
 Parametricity Recursive mk_mc.
 Parametricity Recursive mk_gc.
 Parametricity Recursive c16_gain_check.
+Parametricity Recursive c16_tight_check.
 Parametricity Recursive c16_disc_check.
 
 Definition dtolsR (t : @dtols Q) : @dtols R :=
   mkDT (Q2R (d_eps t)) (Q2R (d_eta t)) (Q2R (d_gz t)) (Q2R (d_ptol t)) (Q2R (d_itol t)).
 
-Theorem c16_gain_check_transfer nS nA P Rw av ab ini gm g h Pi ig iv g' w dup dlo gt pt it :
+Theorem c16_gain_check_transfer nS nA P Rw av ab ini gm g h Pi ig iv g' w h' dup dlo gt pt it :
   @c16_gain_check Q NumQ (mk_mdp nS nA P Rw av ab ini gm) (mk_mc g h Pi ig iv)
-                  (mk_gc g' w dup dlo gt pt it) =
+                  (mk_gc g' w h' dup dlo gt pt it) =
   @c16_gain_check R NumR
      (mk_mdp nS nA (map3 Q2R P) (map3 Q2R Rw) av ab (map Q2R ini) (Q2R gm))
      (mk_mc (map Q2R g) (map Q2R h) (map2 Q2R Pi) (Q2R ig) (Q2R iv))
-     (mk_gc (map Q2R g') (map Q2R w) (Q2R dup) (Q2R dlo) (Q2R gt) (Q2R pt) (Q2R it)).
+     (mk_gc (map Q2R g') (map Q2R w) (map Q2R h') (Q2R dup) (Q2R dlo) (Q2R gt) (Q2R pt) (Q2R it)).
 Proof.
   apply list_R_bool_eq.
   apply (c16_gain_check_R Q R QR NumQ NumR NumQR).
@@ -32,6 +33,25 @@ Proof.
     reflexivity.
   - apply (mk_mc_R Q R QR NumQ NumR NumQR); auto using list_R_map1, list_R_map2; reflexivity.
   - apply (mk_gc_R Q R QR NumQ NumR NumQR); auto using list_R_map1; reflexivity.
+Qed.
+
+Theorem c16_tight_check_transfer nS nA P Rw av ab ini gm g h Pi ig iv g' w h' dup dlo gt pt it d :
+  @c16_tight_check Q NumQ (mk_mdp nS nA P Rw av ab ini gm) (mk_mc g h Pi ig iv)
+                   (mk_gc g' w h' dup dlo gt pt it) d =
+  @c16_tight_check R NumR
+     (mk_mdp nS nA (map3 Q2R P) (map3 Q2R Rw) av ab (map Q2R ini) (Q2R gm))
+     (mk_mc (map Q2R g) (map Q2R h) (map2 Q2R Pi) (Q2R ig) (Q2R iv))
+     (mk_gc (map Q2R g') (map Q2R w) (map Q2R h') (Q2R dup) (Q2R dlo) (Q2R gt) (Q2R pt) (Q2R it))
+     (Q2R d).
+Proof.
+  apply bool_R_inv.
+  apply (c16_tight_check_R Q R QR NumQ NumR NumQR).
+  - apply (mk_mdp_R Q R QR NumQ NumR NumQR); try apply nat_R_refl;
+      auto using list_R_map1, list_R_map2, list_R_map3, list_R_bool_refl, list_R_bool2_refl.
+    reflexivity.
+  - apply (mk_mc_R Q R QR NumQ NumR NumQR); auto using list_R_map1, list_R_map2; reflexivity.
+  - apply (mk_gc_R Q R QR NumQ NumR NumQR); auto using list_R_map1; reflexivity.
+  - reflexivity.
 Qed.
 
 Theorem c16_disc_check_transfer nS nA P Rw av ab ini gm g h Pi ig iv (tl : @dtols Q) :
@@ -63,13 +83,13 @@ Notation mR := (mR nS nA P Rw av ab ini gm).
 Definition ocR : @mcout R := mk_mc (map Q2R g) (map Q2R h) (map2 Q2R Pi) (Q2R ig) (Q2R iv).
 
 Section Gain.
-Variables (g' w : list Q) (dup dlo gt pt it : Q).
+Variables (g' w h' : list Q) (dup dlo gt pt it : Q).
 Definition gcR : @gcert R :=
-  mk_gc (map Q2R g') (map Q2R w) (Q2R dup) (Q2R dlo) (Q2R gt) (Q2R pt) (Q2R it).
+  mk_gc (map Q2R g') (map Q2R w) (map Q2R h') (Q2R dup) (Q2R dlo) (Q2R gt) (Q2R pt) (Q2R it).
 
 Hypothesis Hchk :
   @c16_gain_check Q NumQ (mk_mdp nS nA P Rw av ab ini gm) (mk_mc g h Pi ig iv)
-                  (mk_gc g' w dup dlo gt pt it) = gain_all_true.
+                  (mk_gc g' w h' dup dlo gt pt it) = gain_all_true.
 
 Lemma gchkR : c16_gain_check mR ocR gcR = gain_all_true.
 Proof. unfold VIMain.mR, ocR, gcR. rewrite <- c16_gain_check_transfer. exact Hchk. Qed.
@@ -87,9 +107,21 @@ Proof. intros H1 H2. exact (mcpi_gain_upper mR ocR gcR gchkR H1 H2). Qed.
 Theorem main_gain_attained :
   0 <= Q2R dlo -> 0 <= Q2R gt ->
   exists W, 0 <= W /\
-    forall pol, wfh mR pol -> supported mR pol (opi ocR) -> forall T hist s, (s < nS)%nat ->
-      INR T * (og ocR s - (Q2R gt + Q2R dlo)) - W <= Jn mR pol T hist s.
+    forall T hist s, (s < nS)%nat ->
+      INR T * (og ocR s - (Q2R gt + Q2R dlo)) - W <= Jn mR (stationary (upol mR ocR)) T hist s.
 Proof. intros H1 H2. exact (mcpi_gain_attained mR ocR gcR gchkR H1 H2). Qed.
+
+Theorem main_gain_attained_support d :
+  @c16_tight_check Q NumQ (mk_mdp nS nA P Rw av ab ini gm) (mk_mc g h Pi ig iv)
+                   (mk_gc g' w h' dup dlo gt pt it) d = true ->
+  0 <= Q2R d -> 0 <= Q2R gt ->
+  exists W, 0 <= W /\
+    forall pol, wfh mR pol -> supported mR pol (opi ocR) -> forall T hist s, (s < nS)%nat ->
+      INR T * (og ocR s - (Q2R gt + Q2R d)) - W <= Jn mR pol T hist s.
+Proof.
+  intros Ht H1 H2. rewrite c16_tight_check_transfer in Ht.
+  exact (mcpi_gain_attained_support mR ocR gcR gchkR (Q2R d) Ht H1 H2).
+Qed.
 
 Theorem main_gain_optimal eps :
   0 <= Q2R dup -> 0 <= Q2R dlo -> 0 <= Q2R gt -> 0 < eps ->
@@ -186,12 +218,19 @@ Definition mxPi : list (list Q) := [[1; 0]; [1; 0]; [1; 0]; [1; 0]].
 (* the certificate *)
 Definition mxG' : list Q := [2; 2; 1; 0].
 Definition mxW : list Q := [6 + (1#1000000000); 8; 4; 1#1000000000000].
+Definition mxH' : list Q := [-2; 0; 0; 0].     (* exact bias of the returned policy *)
 
 Example mx_check :
   @c16_gain_check Q NumQ (mk_mdp 4 2 mxP mxR mxAv mxAb mxIni 1)
      (mk_mc mxG mxH mxPi (3#2) (-1 + (1#2000000000)))
-     (mk_gc mxG' mxW (1#100000000) (1#100000000) (1#100000000) (1#1000000000) (1#100000000))
+     (mk_gc mxG' mxW mxH' (1#100000000) 0 (1#100000000) (1#1000000000) (1#100000000))
   = gain_all_true.
+Proof. vm_compute. reflexivity. Qed.
+Example mx_tight :
+  @c16_tight_check Q NumQ (mk_mdp 4 2 mxP mxR mxAv mxAb mxIni 1)
+     (mk_mc mxG mxH mxPi (3#2) (-1 + (1#2000000000)))
+     (mk_gc mxG' mxW mxH' (1#100000000) 0 (1#100000000) (1#1000000000) (1#100000000)) (1#100000000)
+  = true.
 Proof. vm_compute. reflexivity. Qed.
 
 (* the hypotheses of the policy quantifier are inhabited beyond the returned policy:
